@@ -377,8 +377,64 @@ def add_required_breaks(frng, problem, mats, tight=False):
     return done
 
 
-FEATURES4 = ('replace', 'reqbreak')
-FEATURE4_ADD = {'replace': add_replacements, 'reqbreak': add_required_breaks}
+def add_clustering(frng, problem, mats, tight=False):
+    """'cluster': VICINITY CLUSTERING (clustering.md): `plan.clustering` with the vehicles' routing profile (one profile, no scale:
+    a commute between two jobs then takes the matrix duration / distance), visiting `continue` or `return`, serving policy
+    `original` with parking 0 / 5 / 10 s, thresholds chosen from the matrix so that at least one pair of DIFFERENT locations is in
+    vicinity whichever way the two limits are read, sometimes `filtering.excludeJobIds`; plus 3-5 EXTRA single-task jobs (mostly
+    without time windows) at the locations of such a pair, so that clusters with a real commute are formed.  Not combined with
+    general routing data or matrix errorCodes."""
+    if general_routing({'problem': problem, 'matrices': mats}) or mats[0].get('errorCodes'):
+        return False
+    m = mats[0]
+    n = matrix_size(m)
+    if n < 2:
+        return False
+    du, di = m['travelTimes'], m['distances']
+
+    def spread(a, b):
+        return max(du[a * n + b], du[b * n + a], di[a * n + b], di[b * n + a])
+    pairs = sorted((spread(a, b), a, b) for a in range(n) for b in range(a + 1, n))
+    pairs = [x for x in pairs if x[0] > 0] or pairs
+    w, a, b = pairs[0] if frng.chance(2, 3) else frng.choice(pairs[:3])
+    thr_dur = w + frng.choice([0, 0, 3, 10])
+    thr_dist = w + frng.choice([0, 5, 20, 40])
+    jobs = problem['plan']['jobs']
+    k = max(len(v['capacity']) for v in problem['fleet']['vehicles'])
+    base = len(jobs)
+    locs = [a, b, a, b, frng.choice([a, b])]
+    new_ids = []
+    for x in range(frng.range(3, 5)):
+        jid = 'j%d' % (base + x + 1)
+        pl = {'location': {'index': locs[x]}, 'duration': frng.choice([3, 5, 5, 10])}
+        if frng.chance(1, 5):
+            s0 = frng.range(0, 200)
+            pl['times'] = [[rfc(s0), rfc(s0 + frng.range(200, 600))]]
+        if frng.chance(1, 3):
+            pl['tag'] = '%s.c' % jid
+        r = frng.below(10)
+        if r < 5:
+            job = {'id': jid, 'deliveries': [{'places': [pl], 'demand': [1] + [frng.choice([0, 1]) for _ in range(k - 1)]}]}
+        elif r < 8:
+            job = {'id': jid, 'pickups': [{'places': [pl], 'demand': [1] + [frng.choice([0, 1]) for _ in range(k - 1)]}]}
+        else:
+            job = {'id': jid, 'services': [{'places': [pl]}]}
+        jobs.append(job)
+        new_ids.append(jid)
+    cl = {'type': 'vicinity', 'profile': {'matrix': problem['fleet']['profiles'][0]['name']},
+          'threshold': {'duration': thr_dur, 'distance': thr_dist},
+          'visiting': frng.choice(['continue', 'return']),
+          'serving': {'type': 'original', 'parking': frng.choice([0, 0, 5, 10])}}
+    if frng.chance(1, 4):
+        cl['threshold']['maxJobsPerCluster'] = frng.choice([2, 3])
+    if frng.chance(1, 3):
+        cl['filtering'] = {'excludeJobIds': frng.choice([[], [new_ids[0]], [new_ids[-1]]])}
+    problem['plan']['clustering'] = cl
+    return True
+
+
+FEATURES4 = ('replace', 'reqbreak', 'cluster')
+FEATURE4_ADD = {'replace': add_replacements, 'reqbreak': add_required_breaks, 'cluster': add_clustering}
 # what the plugins built on the full checker (C01, C02, C03) pass as `allow=`: general routing data + every round-four feature
 ALLOW_E2E = ('tdm', 'replace', 'reqbreak')
 
@@ -966,31 +1022,66 @@ def g_xproblem(p, ids=None):
                     e, l, off = required_break_times(b)
                     return '(mkRBreak %s %s %s %s)' % (z(e), z(l), z(int(b['duration'])), 'true' if off else 'false')
                 rows.append('(%s, %s, %s)' % (z(ids.vtype(vt['typeId'])), nat(k), lst(brs, g)))
-    return '(mkXProblem [%s])' % '; '.join(rows)
+    cl = p['problem']['plan'].get('clustering')
+    cfg = 'None'
+    if cl:
+        excl = [ids.job(x) for x in (cl.get('filtering') or {}).get('excludeJobIds') or []]
+        cfg = '(Some (mkCCfg %s %s %s %s %s))' % ('true' if cl['visiting'] == 'return' else 'false', z(int(cl['serving']['parking'])),
+                                               z(int(cl['threshold']['duration'])), z(int(cl['threshold']['distance'])), zlist(excl))
+    return '(mkXProblem [%s] %s)' % ('; '.join(rows), cfg)
+
+
+def g_xsolution(p, s, ids=None):
+    """Gallina term of type ValidX.xsolution: the parts of the document Valid.ssolution has no field for - per tour the `parking` of
+    every stop and the `commute` of every flattened activity, the commuting / parking parts of the statistics"""
+    if not any(st.get('parking') is not None or any(a.get('commute') is not None for a in st['activities'])
+               for t in s['tours'] for st in t['stops']) and not (s['statistic']['times'].get('commuting') or s['statistic']['times'].get('parking')):
+        return 'XS0'
+
+    def iv(x):
+        return '(%s, %s)' % (z(secs(x['start'])), z(secs(x['end'])))
+
+    def info(c):
+        if c is None:
+            return 'None'
+        return '(Some (mkCommute %s %s %s %s))' % (z(c['location']['index']), z(int(c['distance'])), z(secs(c['time']['start'])),
+                                                  z(secs(c['time']['end'])))
+
+    def comm(a):
+        c = a.get('commute')
+        return 'None' if c is None else '(Some (%s, %s))' % (info(c.get('forward')), info(c.get('backward')))
+
+    def tour(t):
+        return '(mkXTour %s %s %s %s)' % (
+            lst(t['stops'], lambda st: 'None' if st.get('parking') is None else '(Some %s)' % iv(st['parking'])),
+            lst([a for st in t['stops'] for a in st['activities']], comm),
+            z(t['statistic']['times'].get('commuting', 0)), z(t['statistic']['times'].get('parking', 0)))
+    return '(mkXSolution %s %s %s)' % (lst(s['tours'], tour), z(s['statistic']['times'].get('commuting', 0)),
+                                      z(s['statistic']['times'].get('parking', 0)))
 
 
 def needs_x(p):
-    """does the problem use a feature whose rules live in Spec/ValidX.v beyond the additive ones (required breaks ...)?"""
-    return has_required_breaks(p)
+    """does the problem use a feature whose rules live in Spec/ValidX.v beyond the additive ones (required breaks, clustering)?"""
+    return has_required_breaks(p) or bool(p['problem']['plan'].get('clustering'))
 
 
 def term_A(c, s, ids, P='P', S='S'):
     """group A (C02) on the let-bound problem P and solution S: Valid.accounted_b plus the round-four rules"""
-    return '(accounted4 %s %s %s)' % (g_xproblem(c, ids), P, S)
+    return '(accounted4 %s %s %s %s)' % (g_xproblem(c, ids), g_xsolution(c, s, ids), P, S)
 
 
 def term_F(c, s, ids, R='R', P='P', S='S'):
-    """group F (C01): for a problem with required breaks ValidX.feasible4 (= feasible_viols ++ xfeasible_viols around the reserved
-    times, proved equal to them for a problem without), otherwise the expression the plugin evaluated before round four"""
+    """group F (C01): for a problem with required breaks / clustering ValidX.feasible4 (= feasible_viols ++ xfeasible_viols around the
+    reserved times, proved equal to them for a problem without), otherwise the expression the plugin evaluated before round four"""
     if needs_x(c):
-        return '(feasible4 %s %s %s)' % (g_xproblem(c, ids), P, S)
+        return '(feasible4 %s %s %s %s)' % (g_xproblem(c, ids), g_xsolution(c, s, ids), P, S)
     return '(feasible_viols_x %s %s %s ++ xfeasible_viols %s %s)' % (R, P, S, P, S)
 
 
 def term_R(c, s, ids, R='R', P='P', S='S'):
     """group R (C03), likewise"""
     if needs_x(c):
-        return '(replay4 %s %s %s)' % (g_xproblem(c, ids), P, S)
+        return '(replay4 %s %s %s %s)' % (g_xproblem(c, ids), g_xsolution(c, s, ids), P, S)
     return '(replay_viol_x %s %s %s ++ xreplay_viols %s %s)' % (R, P, S, P, S)
 
 
@@ -1151,7 +1242,7 @@ def rb_missing_class(p, tour):
 
 def term_valid4(c, s, ids):
     """the whole round-four checker on one document (development / C07-style callers)"""
-    return '(valid4 %s %s %s)' % (g_xproblem(c, ids), g_problem(c, ids), g_solution(c, s, ids))
+    return '(valid4 %s %s %s %s)' % (g_xproblem(c, ids), g_xsolution(c, s, ids), g_problem(c, ids), g_solution(c, s, ids))
 
 
 def unsupported(p, s):
@@ -1182,13 +1273,25 @@ def unsupported(p, s):
                     if len(b['time']) != 2 or any(float(x) != int(x) for x in b['time'] if not isinstance(x, str)) or \
                             any(float(pl['duration']) != int(pl['duration']) for pl in b['places']):
                         return 'break with non-integer offsets / durations'
+        cl = p['problem']['plan'].get('clustering')
+        if cl:
+            profs = p['problem']['fleet'].get('profiles') or []
+            if cl.get('type') != 'vicinity' or general_routing(p) or len(profs) != 1 or cl['profile'].get('matrix') != profs[0]['name'] \
+                    or cl['profile'].get('scale') not in (None, 1, 1.0):
+                return 'clustering with another routing profile / scale than the vehicles'
+            if cl['serving'].get('type') != 'original':
+                return 'clustering with a serving policy other than original'
+            if any(float(x) != int(x) for x in (cl['serving']['parking'], cl['threshold']['duration'], cl['threshold']['distance'])):
+                return 'clustering with non-integer parking / thresholds'
+            if p['matrices'][0].get('errorCodes'):
+                return 'clustering together with errorCodes'
         if not isinstance(s, dict) or 'tours' not in s or 'statistic' not in s:
             return 'not a solution document'
         sts = [s['statistic']] + [t['statistic'] for t in s['tours']]
         for st in sts:
             if float(st['cost']) != int(st['cost']):
                 return 'non-integer cost %r' % st['cost']
-            if st['times'].get('commuting', 0) or st['times'].get('parking', 0):
+            if (st['times'].get('commuting', 0) or st['times'].get('parking', 0)) and not cl:
                 return 'commuting/parking time reported without clustering'
         for t in s['tours']:
             for stop in t['stops']:
@@ -1202,12 +1305,23 @@ def unsupported(p, s):
                     return 'stop without index location'
                 if len(stop.get('load', [])) > dims:
                     return 'load with more dimensions than the capacity'
-                if stop.get('parking') is not None:
+                if stop.get('parking') is not None and not cl:
                     return 'parking reported without clustering'
+                if stop.get('parking') is not None:
+                    secs(stop['parking']['start']), secs(stop['parking']['end'])
+                clustered = stop.get('parking') is not None or any(a.get('commute') is not None for a in stop['activities'])
+                if clustered and tour_required_breaks(p, t):
+                    return 'clustered stop in a tour of a shift with required breaks'
                 secs(stop['time']['arrival']), secs(stop['time']['departure'])
                 for a in stop['activities']:
-                    if a.get('commute') is not None:
+                    if a.get('commute') is not None and not cl:
                         return 'commute reported without clustering'
+                    for d in ('forward', 'backward'):
+                        ci = (a.get('commute') or {}).get(d)
+                        if ci is not None:
+                            if 'index' not in ci['location'] or float(ci['distance']) != int(ci['distance']):
+                                return 'commute with non-index location / non-integer distance'
+                            secs(ci['time']['start']), secs(ci['time']['end'])
                     if a.get('location') is not None and 'index' not in a['location']:
                         return 'activity with non-index location'
                     if a.get('time') is not None:
